@@ -286,26 +286,38 @@ func (t *Task) latestDependency(pg wpg.Conn) (uint64, []byte, error) {
 			and ig_name = ANY($2)
 			order by ig_name, num desc
 		)
-		select num, hash
+		select num, hash, (select count(*) from latest)
 		from latest
 		order by num asc
 		limit 1;
 	`
-	num, hash := uint64(0), []byte{}
+	num, hash, nfound := uint64(0), []byte{}, 0
 	err := pg.QueryRow(
 		t.ctx,
 		q,
 		t.srcName,
 		t.destConfig.Dependencies,
-	).Scan(&num, &hash)
+	).Scan(&num, &hash, &nfound)
 	switch {
 	case errors.Is(err, pgx.ErrNoRows):
 		return 0, nil, nil
 	case err != nil:
 		return 0, nil, err
+	case nfound < distinct(t.destConfig.Dependencies):
+		// a dependency that hasn't recorded any
+		// progress yet holds everything back
+		return 0, nil, nil
 	default:
 		return num, hash, nil
 	}
+}
+
+func distinct(names []string) int {
+	var seen = map[string]struct{}{}
+	for _, name := range names {
+		seen[name] = struct{}{}
+	}
+	return len(seen)
 }
 
 func (t *Task) latest(ctx context.Context, pg wpg.Conn) (uint64, []byte, error) {
